@@ -1,5 +1,6 @@
 import PdfModel.Lemmas.TypedLoad
 import PdfModel.Lemmas.Numeric
+import PdfModel.Generated.Lexical
 
 /-!
 # C14 — hostile but well-formed object graphs end in an error, not a crash
@@ -587,5 +588,28 @@ theorem C14_model_total : C14_model_full := by
   · intro s; exact ps_body_total s
   · intro ops input outLen; exact ps_exec_total intArith ops input outLen
   · intro c r; exact fax_dims_total c r
+
+end C14
+
+/-! ## Tie to the source: constants and byte classes (appended by the translator package)
+
+`Generated/Lexical.lean` is re-extracted from `pdf/src` by `./check` before this file is built. -/
+
+namespace C14
+
+/-- the budgets of the guarded loaders are the ones of the source: nested typed loads (`MAX_NESTED_GETS`), name / number tree depth (`MAX_TREE_DEPTH`), reference chains of `Resolve::resolve`, the page-tree depth, and the colour-space depth 5 for which `colorspace_total` is stated -/
+theorem constants_match_source :
+    (TypedLoad.maxNest = Generated.maxNestedGets) ∧
+    (TypedLoad.maxTreeDepth = Generated.maxTreeDepth) ∧
+    (∀ (g : List TypedLoad.Stored) (k : Nat), TypedLoad.resolve g k = TypedLoad.resolveFlags g Generated.resolveDepth k) ∧
+    (∀ (g : List TypedLoad.PNode) (c : Bool) (kids : List Nat) (n : Nat),
+      TypedLoad.page g c kids n = TypedLoad.pageLimited g c Generated.pageTreeDepth kids n) ∧
+    (Generated.colorSpaceDepth = 5) := by
+  refine ⟨?_, ?_, ?_, ?_, ?_⟩
+  · first | decide +kernel | fail "constants_match_source (C14): the model's TypedLoad.maxNest does not match the source (Generated.maxNestedGets, re-extracted from pdf/src)"
+  · first | decide +kernel | fail "constants_match_source (C14): the model's TypedLoad.maxTreeDepth does not match the source (Generated.maxTreeDepth, re-extracted from pdf/src)"
+  · first | (intros; rfl) | fail "constants_match_source (C14): the model's TypedLoad.Stored, TypedLoad.resolve, TypedLoad.resolveFlags does not match the source (Generated.resolveDepth, re-extracted from pdf/src)"
+  · first | (intros; rfl) | fail "constants_match_source (C14): the model's TypedLoad.PNode, TypedLoad.page, TypedLoad.pageLimited does not match the source (Generated.pageTreeDepth, re-extracted from pdf/src)"
+  · first | decide +kernel | fail "constants_match_source (C14): the model's statement does not match the source (Generated.colorSpaceDepth, re-extracted from pdf/src)"
 
 end C14
